@@ -223,13 +223,16 @@ Section RG.
     inversion H as [[Hg Hx Hf]]. rewrite Hg. auto.
   Qed.
 
-  (** set-up renormalisation followed by the prologue = Restart.prepare *)
+  (** set-up renormalisation followed by the prologue = Restart.prepare (evaluated as one block: what
+      the set-up leaves in the projection cache is irrelevant, the prologue refreshes it) *)
   Lemma prepare_is_generated cf (s : st K) :
     pst_of (exec_blk nosig cf main_pre (exec_blk nosig cf main_setup_norm s)) = r_prepare (renorm cf) (pst_of s).
   Proof.
-    rewrite pre_refreshes. unfold Restart.prepare. f_equal. f_equal.
-    rewrite !pst_E, E_blk. generalize (E s). intros e. destruct e. unfold main_setup_norm, pst_e. cbn.
-    destruct (0 <=? renorm cf); reflexivity.
+    rewrite <- (exec_blk_bapp K nosig cf main_setup_norm main_pre s).
+    rewrite !pst_E, E_blk, eblk_flat. generalize (E s). intros e.
+    unfold Restart.prepare. change (0 <=? renorm cf) with (f_nonneg std_gf (renorm cf)).
+    symbolic gf cf e.
+    vm_ifs; reflexivity.
   Qed.
 
   (** final_block_matches_loop_head: with a results file the final block writes exactly one
